@@ -45,12 +45,14 @@ To use this backend you must activate the `slurm` backend.
 
 import logging
 import os.path
+import re
 from collections import defaultdict
 
 import attrs
 
 from ..utils import ensure_trailing_newline
 from .base import BackendStatus, TrackingBackend
+from .exceptions import BackendError
 from .utils import call, has_exe
 
 logger = logging.getLogger(__name__)
@@ -203,7 +205,10 @@ class SlurmOps:
         args = ["--parsable"]
         if dependencies:
             args.append("--dependency=afterok:{}".format(":".join(dependencies)))
-        return call("sbatch", *args, input=script).strip()
+        job_id = call("sbatch", *args, input=script).strip()
+        if not re.fullmatch(r"\d+(;\S*)?", job_id):
+            raise BackendError(f"sbatch did not return a job id, but: {job_id!r}")
+        return job_id
 
     def get_job_states_from_squeue(self, tracked_jobs):
         logger.debug("Loading job states from squeue")
